@@ -839,6 +839,12 @@ def run(ctx):
                 samples.append({"program": c["text"], "events": mv["events"], "answers": mv["answers"], "ball": mv["ball"]})
             continue
         sig = {"cls": c["cls"], "part": "+".join(d)}
+        if (iv.get("raw") is None and d == ["events"] and c["text"].count("setup_call_cleanup(") >= 2
+                and sorted(iv["events"]) == sorted(mv["events"]) and "c" in mv.get("marks", "")):
+            # finding C12-2: a cut inside the goal of an enclosing setup_call_cleanup/3 that prunes an inner,
+            # non-deterministically exited one also runs the enclosing (still running) goal's handler: same
+            # events, the enclosing handler's too early
+            sig = {"cls": c["cls"], "defect": "enclosing-cleanup-runs-at-inner-cut"}
         if c["cls"].endswith("noncallable-literal") and iv.get("raw") is None and lost_cleanup(iv, mv):
             # finding C12-1: the body holding a non-callable literal is left unexpanded, the clean-up goal stays
             # unqualified and is looked up in iso_ext (existence error, swallowed on the exception path)
